@@ -1336,11 +1336,18 @@ pub struct SetFont {
     font_page: usize,
     old: BitFont,
     new: BitFont,
+    /// what the slot held when the font was set (the slot may have been empty)
+    replaced_font: Option<Option<BitFont>>,
 }
 
 impl SetFont {
     pub fn new(font_page: usize, old: BitFont, new: BitFont) -> Self {
-        Self { font_page, old, new }
+        Self {
+            font_page,
+            old,
+            new,
+            replaced_font: None,
+        }
     }
 }
 
@@ -1350,11 +1357,18 @@ impl UndoOperation for SetFont {
     }
 
     fn undo(&mut self, edit_state: &mut EditState) -> EngineResult<()> {
-        edit_state.get_buffer_mut().set_font(self.font_page, self.old.clone());
+        match self.replaced_font.take() {
+            Some(Some(font)) => edit_state.get_buffer_mut().set_font(self.font_page, font),
+            Some(None) => {
+                edit_state.get_buffer_mut().remove_font(self.font_page);
+            }
+            None => edit_state.get_buffer_mut().set_font(self.font_page, self.old.clone()),
+        }
         Ok(())
     }
 
     fn redo(&mut self, edit_state: &mut EditState) -> EngineResult<()> {
+        self.replaced_font = Some(edit_state.get_buffer_mut().remove_font(self.font_page));
         edit_state.get_buffer_mut().set_font(self.font_page, self.new.clone());
         Ok(())
     }
